@@ -223,7 +223,7 @@ PROPS = {
         module="OrbitModel.Properties.C15",
         theorems=["Orbit.C15.effective_limit", "Orbit.C15.trim_panics_iff", "Orbit.C15.trim_keeps_newest",
                   "Orbit.C15.load_lists_newest_n_of_a_chain", "Orbit.C15.load_one_head_never_panics", "Orbit.C15.estimated_trim_panicked_on_a_log_with_holes_before_the_fix", "Orbit.C15.the_second_join_of_load_is_a_trim", "Orbit.C15.load_more_lists_everything_fetched", "Orbit.C15.load_more_loaded_nothing_below_what_was_held_before_the_fix",
-                  "Orbit.C15.limit_normalisation_tied_to_go_text", "Orbit.C15.pinned_tree_panicked_or_emptied", "Orbit.C15.load_steps_tied_to_go_text"],
+                  "Orbit.C15.limit_normalisation_tied_to_go_text", "Orbit.C15.pinned_tree_panicked_or_emptied", "Orbit.C15.load_steps_tied_to_go_text", "Orbit.C15.limited_load_fetches_until_the_limit_is_met", "Orbit.C15.filtered_entry_counted_against_the_limit_before_the_fix"],
         families=[("limit", 80, 2500, 12)],
         corr_fields={"values", "heads", "idx", "len", "load", "local", "remote"},
         nontrivial=lambda lines: any(l.startswith("op restart ") and len(l.split()) > 3 for l in lines),
@@ -293,7 +293,7 @@ MANIFEST_TEXT = {
         note="Trusted: Lean kernel + standard axioms; injectivity of the manifest CID (hash + dag-cbor) is a hypothesis; the Create/Open model is hand-written (its abstractions are listed at the top of Model/OpenCreate.lean) and run against the real instance on every create/open of the address family; only the default ipfs access controller is modelled.",
         technique="Lean 4 proof (path cleaning lemmas, parse/print inverse, injectivity) with differential correspondence over adversarial names"),
     "C15": dict(
-        text="Kernel-checked theorems: the effective limit (n <= 0 falls back to MaxHistory, non-positive means all); Join(size) panics exactly when size exceeds the length and otherwise keeps the newest size entries in order; for EVERY chain length and EVERY limit, Load(n) on a fresh store with one cached head lists exactly the newest min(n,T) entries oldest first (all for n <= 0) even when the fetcher over-fetches; loading one head never panics, for EVERY log the store may hold (closed or with holes, fully or partially loaded), every fetched log and every amount: the merge asks for no trim and the trim is only asked for once the listing is longer than the amount (finding F30, fix: commit - the estimate-based trim panicked on logs with holes: decide-checked witness, reproduced by Load(n) on an open, partially loaded store). The pinned tree's panic (n > total) and emptied log (n = 0) are decide-checked and were replayed on the real store before the fix: commit. The limit family loads real multi-writer logs with every boundary limit, lets partially loaded stores replicate, write and load again ('load more'), and checks count, order, newest and most-recent-n on the listing — after a 'load more' too: an unlimited Load of a cached head into ANY log satisfying the log invariant lists what the log held plus everything fetched (proved; finding F36, fix: commit — Join, handed the whole fetched log, stopped at the held head and merged nothing below it: decide-checked witness, replayed on the real store).",
+        text="Kernel-checked theorems: the effective limit (n <= 0 falls back to MaxHistory, non-positive means all); Join(size) panics exactly when size exceeds the length and otherwise keeps the newest size entries in order; for EVERY chain length and EVERY limit, Load(n) on a fresh store with one cached head lists exactly the newest min(n,T) entries oldest first (all for n <= 0) even when the fetcher over-fetches; loading one head never panics, for EVERY log the store may hold (closed or with holes, fully or partially loaded), every fetched log and every amount: the merge asks for no trim and the trim is only asked for once the listing is longer than the amount (finding F30, fix: commit - the estimate-based trim panicked on logs with holes: decide-checked witness, reproduced by Load(n) on an open, partially loaded store). The pinned tree's panic (n > total) and emptied log (n = 0) are decide-checked and were replayed on the real store before the fix: commit. The limit family loads real multi-writer logs with every boundary limit, lets partially loaded stores replicate, write and load again ('load more'), and checks count, order, newest and most-recent-n on the listing — after a 'load more' too: an unlimited Load of a cached head into ANY log satisfying the log invariant lists what the log held plus everything fetched (proved; finding F36, fix: commit — Join, handed the whole fetched log, stopped at the held head and merged nothing below it: decide-checked witness, replayed on the real store). Entries Load leaves out do not count against the limit: the refetch loop ends, for every fetcher that returns at most what it is asked for, on a fetch that keeps at least n entries or is the whole log (proved; finding F57, fix: commit - one fetch of length n kept fewer: decide-checked witness; the limit family adds a hand-made entry whose parent belongs to another log).",
         note="Partial: for several cached heads the count/order/newest statement is checked on the implementation and on decide-checked instances, not proved in general; the bounded fetcher is a parameter with a stated contract.",
         technique="Lean 4 proof (trim/Join size lemmas, chain induction) with differential correspondence over boundary limits"),
     "C16": dict(
